@@ -66,6 +66,9 @@ type vCase06 struct {
 	N0   bool   `json:"n0"`
 	Mut  string `json:"mut"`
 	Em   vEM    `json:"em"`
+	Via  string `json:"via"` // "value": certificate values built by the harness; "parsed": DER through yubiattest.ParseCertificate
+	Lab  string `json:"lab"` // the encoded algorithm label (via = "parsed")
+	Sch  string `json:"sch"` // the scheme the signature value was made under
 }
 
 type vRes06 struct {
@@ -278,6 +281,8 @@ func deviceCertT(root, other, namesake *vCA, dev crypto.Signer, rel, tm string, 
 }
 
 type vDev struct {
+	der     map[string][]byte // cross classes: device certificates as DER
+	slot    []byte            // a well-formed slot certificate signed by this device key
 	genuine *x509.Certificate // root-issued, valid, ANOTHER key (victim), the identity the twins copy
 	victim  *rsa.PrivateKey
 	kt      string
@@ -289,7 +294,8 @@ type vDev struct {
 
 type vWorld struct {
 	root, other *vCA
-	namesake    *vCA // not in the pool, same subject name as root
+	namesake    *vCA    // not in the pool, same subject name as root
+	rroot       *vRSACA // RSA root, in the pool (issues the device certificates of the label x scheme cases)
 	pool        *x509.CertPool
 	att         *yubiattest.Attestor // long-lived: shared by all cases of the run
 	tbs         [][]byte
@@ -302,6 +308,8 @@ func newWorld(r *mrand.Rand) *vWorld {
 	}
 	w.pool = x509.NewCertPool()
 	w.pool.AddCert(w.root.cert)
+	w.rroot = w.rsaRoot()
+	w.pool.AddCert(w.rroot.cert)
 	w.att = yubiattest.NewAttestorWithCAPool(w.pool)
 	// to-be-signed bytes: real TBSCertificate encodings (only hashed by the code under test)
 	k, _ := ecdsa.GenerateKey(elliptic.P256(), crand.Reader)
@@ -362,6 +370,9 @@ func (w *vWorld) device(kt string, bits int, serial int64) *vDev {
 			panic("harness: twin does not copy the identity of the genuine certificate")
 		}
 		d.certs[rel+"/valid"] = t
+	}
+	if d.rsa != nil {
+		w.crossDeviceCerts(d, serial+20)
 	}
 	return d
 }
@@ -643,6 +654,8 @@ type vStats06 struct {
 	B         int            `json:"b_cases"`
 	Calls     int            `json:"a_calls"`
 	Primed    int            `json:"primed"`
+	Cross     int            `json:"cross_cases"`
+	CrossAcc  int            `json:"cross_accepted"`
 	TwinCalls int            `json:"twin_calls_on_used"`
 	Unreal    int            `json:"unrealisable"`
 	Accepted  int            `json:"accepted"`
@@ -654,6 +667,16 @@ type vStats06 struct {
 }
 
 func (s *vStats06) note(e *vE06) {
+	if e.Via == "" {
+		e.Via = "value"
+	}
+	if e.Sch == "" {
+		if e.Kt == "rsa" {
+			e.Sch = "pkcs1"
+		} else {
+			e.Sch = "other"
+		}
+	}
 	s.mu.Lock()
 	defer s.mu.Unlock()
 	s.Events++
@@ -663,7 +686,7 @@ func (s *vStats06) note(e *vE06) {
 	if e.Res.Pan {
 		s.Panics++
 	}
-	key := fmt.Sprintf("%s|%s|%d|%s|%s|%s|%s|%s|%v|%s|%d|%s|%v|%d", e.Hist, e.Kt, e.Alg, e.Rel, e.Time, e.Sf, e.Mut, e.Em.Shape, e.Em.Pfx, e.Em.Dgh, e.Em.Dgj, e.Em.Lead+e.Em.Bt+e.Em.Psf+e.Em.Psm+e.Em.Psl+e.Em.Sep+e.Em.Dgv, e.Res, e.K)
+	key := fmt.Sprintf("%s|%s|%s|%s|%s|%d|%s|%s|%s|%s|%s|%v|%s|%d|%s|%v|%d", e.Via, e.Lab, e.Sch, e.Hist, e.Kt, e.Alg, e.Rel, e.Time, e.Sf, e.Mut, e.Em.Shape, e.Em.Pfx, e.Em.Dgh, e.Em.Dgj, e.Em.Lead+e.Em.Bt+e.Em.Psf+e.Em.Psm+e.Em.Psl+e.Em.Sep+e.Em.Dgv, e.Res, e.K)
 	s.Distinct[key]++
 }
 
@@ -714,12 +737,22 @@ func TestVerifAttest06(t *testing.T) {
 			for j := range jobs {
 				c := plan.Cases[j.ci].C
 				r := verifh.NewRand("attest06-A", int64(j.ci)*8191+int64(j.bits))
-				w.runCaseA(c, j.ci, j.bits, devs, r, tr, st)
+				if c.Via == "parsed" {
+					w.runCross(c, j.ci, devs[fmt.Sprintf("rsa/%d", j.bits)], r, tr, st)
+				} else {
+					w.runCaseA(c, j.ci, j.bits, devs, r, tr, st)
+				}
 			}
 		}(wi)
 	}
 	for ci := range plan.Cases {
-		if plan.Cases[ci].C.Kt == "rsa" && plan.Cases[ci].C.Em.Lead == "FF" {
+		if plan.Cases[ci].C.Via == "parsed" {
+			for _, b := range plan.Bits {
+				if b >= 1536 && b <= 3072 { // RSASSA-PSS with SHA-512 does not fit a 1024-bit key
+					all = append(all, job{ci, b})
+				}
+			}
+		} else if plan.Cases[ci].C.Kt == "rsa" && plan.Cases[ci].C.Em.Lead == "FF" {
 			all = append(all, job{ci, -1}) // needs the modulus that begins with FF
 		} else if plan.Cases[ci].C.Kt == "rsa" {
 			for _, b := range plan.Bits {
